@@ -10,7 +10,6 @@ package main
 
 import (
 	"fmt"
-	"runtime"
 	"strings"
 	"time"
 
@@ -22,7 +21,7 @@ import (
 
 const (
 	fuel       = 3000
-	modelLimit = 1 << 25  // slice elements: above this the model answers "alloc" and the case goes to a child
+	modelLimit = 1 << 22  // slice elements: above this the model answers "alloc" and the case goes to a child
 	childAS    = 3 << 30  // address space of a child
 	memBound   = 64 << 20 // oracle: 64·|b| + 64 MiB
 
@@ -89,7 +88,13 @@ func indexOr(s, sub string) int {
 	return len(s)
 }
 
-func (e *env) target(name string) int { return e.byName[name] }
+func (e *env) target(name string) int {
+	i, ok := e.byName[name]
+	if !ok {
+		panic("unknown target " + name)
+	}
+	return i
+}
 
 // run evaluates one case. family names the generator (distribution only).
 func (e *env) run(family string, ti int, in codecx.Input) {
@@ -115,7 +120,7 @@ func (e *env) run(family string, ti int, in codecx.Input) {
 	risky := pred == "fail diverge" || pred == "fail depth" || pred == "fail alloc" || (e.d == nil && strings.HasPrefix(family, "risky"))
 	if risky && !strings.HasPrefix(family, "risky") && family != "corpus" && family != "replay" {
 		// randomly generated cases that need a child process: a bounded number per run (each costs up to the timeout)
-		if e.randChild >= e.o.N(40, 1500) {
+		if e.randChild >= e.o.N(25, 1500) {
 			e.r.Hit("skipped:child-budget")
 			return
 		}
@@ -124,23 +129,31 @@ func (e *env) run(family string, ti int, in codecx.Input) {
 	var o codecx.Outcome
 	if risky {
 		e.child++
-		o = codecx.DecodeInChild(ti, in, childAS, childTimeout)
+		to := childTimeout
+		if pred == "fail depth" || in.Count > 100000 {
+			to = 60 * time.Second // finite: it either overflows the stack or finishes
+		}
+		o = codecx.DecodeInChild(ti, in, childAS, to)
 		e.r.Hit("ran:child")
 	} else {
 		b := in.Bytes()
-		var m0, m1 runtime.MemStats
-		runtime.ReadMemStats(&m0)
+		a0 := codecx.AllocBytes()
 		o = codecx.DecodeInProc(b, t.Type)
-		runtime.ReadMemStats(&m1)
-		o.Alloc = m1.TotalAlloc - m0.TotalAlloc
+		o.Alloc = codecx.AllocBytes() - a0
 		e.r.Hit("ran:in-process")
 		if o.Res == "fail hang" || o.Res == "fail memory" {
-			// the goroutine cannot be stopped: classify in a child (for the stack), report and stop the run
-			o2 := codecx.DecodeInChild(ti, in, childAS, childTimeout)
-			e.judge(c, pred, o2, len(b), family)
-			e.r.Notes = append(e.r.Notes, "run stopped early: an in-process Decode did not return: "+trunc(c, 200))
-			e.r.Write(e.o.Out)
-			panic("stop")
+			// the watchdog fired although the model expects a prompt return: decide in a child with a long timeout
+			// (on a loaded machine a legitimate decode can be slow); the stuck goroutine cannot be stopped
+			o2 := codecx.DecodeInChild(ti, in, childAS, 120*time.Second)
+			if strings.HasPrefix(o2.Res, "ok ") || o2.Res == "fail err" || strings.HasPrefix(o2.Res, "fail panic") {
+				e.r.Hit("slow-in-process-rerun-in-child")
+				o = o2
+			} else {
+				e.judge(c, pred, o2, len(b), family)
+				e.r.Notes = append(e.r.Notes, "run stopped early: an in-process Decode did not return: "+trunc(c, 200))
+				e.r.Write(e.o.Out)
+				panic("stop")
+			}
 		}
 		if o.Alloc > uint64(64*len(b)+memBound) && strings.HasPrefix(o.Res, "fail err") || o.Alloc > uint64(64*len(b)+memBound) && strings.HasPrefix(o.Res, "ok") {
 			// too much memory for this input although it returned: get the allocation site from a child with a small limit
@@ -217,6 +230,8 @@ func splitCase(c string) (ty, hx string) {
 	return c[:i], c[i+1:]
 }
 
+func le(v uint32) []byte { return []byte{byte(v), byte(v >> 8), byte(v >> 16), byte(v >> 24)} }
+
 func rep(b byte, n int) []byte {
 	out := make([]byte, n)
 	for i := range out {
@@ -239,7 +254,7 @@ func (e *env) directed() {
 	// dimension products that wrap around in int32
 	e.run("risky:dims-wrap", v, un("c60100000007000000020000008"+"13d660081020000"))
 	e.run("dims-wrap", v, un("c30b0000000102030405060708090a0b020000000300000059555555"))
-	ns := []uint32{2, 12}
+	ns := []uint32{12}
 	if e.o.Thorough() {
 		ns = []uint32{1, 2, 3, 4, 5, 7, 11, 12, 30, 200, 65535}
 	}
@@ -257,11 +272,34 @@ func (e *env) directed() {
 	e.run("dims-wrap", v, codecx.Plain(codecx.VariantHeader(0xc6, 0xffffffff, nil, []uint32{3, 5, 17, 257, 65537}, true)))
 	// pre-allocation from a length prefix
 	e.run("risky:prealloc", e.target("*[]*ua.ReadValueID"), un("ffffff7f"))
-	e.run("risky:prealloc", e.target("*[]string"), un("ffffff7f"))
-	e.run("risky:prealloc", e.target("*[]*ua.Variant"), un("0000004001"))
+	if e.o.Thorough() {
+		e.run("risky:prealloc", e.target("*[]string"), un("ffffff7f"))
+		e.run("risky:prealloc", e.target("*[]*ua.Variant"), un("0000004001"))
+	}
 	e.run("risky:prealloc", v, un("c600000000ffffff7f"))
 	e.run("prealloc", e.target("*[]uint32"), un("00001000"))
 	e.run("prealloc", e.target("*[]uint32"), un("ffff0000"))
+	// hostile length prefixes on strings, byte strings and slices (all are plain errors on the unchanged tree)
+	for _, n := range []uint32{0x40000000, 0x7fffffff, 0x80000000, 0xfffffffe, 0xfffffff0, 0x00ffffff} {
+		l := le(n)
+		e.run("length-prefix", e.target("*string"), codecx.Plain(l))
+		e.run("length-prefix", e.target("*[]uint8"), codecx.Plain(l))
+		e.run("length-prefix", e.target("*[]uint32"), codecx.Plain(append(append([]byte{}, l...), 1, 2, 3, 4)))
+		e.run("length-prefix", v, codecx.Plain(append([]byte{0x0c}, l...)))
+		e.run("length-prefix", v, codecx.Plain(append([]byte{0x0f}, l...)))
+		e.run("length-prefix", v, codecx.Plain(append([]byte{0x10}, l...)))
+		e.run("length-prefix", e.target("*ua.NodeID"), codecx.Plain(append([]byte{0x03, 0, 0}, l...)))
+		e.run("length-prefix", e.target("*ua.NodeID"), codecx.Plain(append([]byte{0x05, 1, 0}, l...)))
+		e.run("length-prefix", e.target("*ua.LocalizedText"), codecx.Plain(append([]byte{0x03}, l...)))
+		e.run("length-prefix", e.target("*ua.QualifiedName"), codecx.Plain(append([]byte{0, 0}, l...)))
+		e.run("length-prefix", e.target("*ua.DiagnosticInfo"), codecx.Plain(append([]byte{0x10}, l...)))
+		e.run("length-prefix", e.target("*ua.ExpandedNodeID"), codecx.Plain(append([]byte{0x80, 7}, l...)))
+		e.run("length-prefix", e.target("*ua.ExtensionObject"), codecx.Plain(append([]byte{0x00, 0x00, 0x01}, l...)))
+	}
+	// nil arrays (length -1) with dimension lists: rejected because no product of dimensions ≥ 1 equals -1 without wrapping
+	for _, dims := range [][]uint32{{1000000, 1}, {0x7fffffff, 0x7fffffff, 0x7fffffff}, {2, 3}, {1}, {5, 1, 1}} {
+		e.run("nil-array-dims", v, codecx.Plain(codecx.VariantHeader(0xc6, 0xffffffff, nil, dims, true)))
+	}
 	// Variant arrays: 65535 elements per 5 bytes, nested
 	e.run("amplification", v, un("98ffff000098ffff0000"))
 	e.run("risky:amplification", v, codecx.Input{Unit: []byte{0x98, 0xff, 0xff, 0, 0}, Count: 2500})
@@ -272,8 +310,10 @@ func (e *env) directed() {
 		e.run("nesting", e.target("*ua.DataValue"), codecx.Input{Unit: []byte{0x01, 0x17}, Count: n, Suffix: []byte{0x00}})
 	}
 	e.run("risky:nesting", v, codecx.Input{Unit: []byte{0x18}, Count: 800000})
-	e.run("risky:nesting", e.target("*ua.DiagnosticInfo"), codecx.Input{Unit: []byte{0x40}, Count: 800000})
-	e.run("risky:nesting", e.target("*ua.DataValue"), codecx.Input{Unit: []byte{0x01, 0x17}, Count: 400000})
+	if e.o.Thorough() {
+		e.run("risky:nesting", e.target("*ua.DiagnosticInfo"), codecx.Input{Unit: []byte{0x40}, Count: 800000})
+		e.run("risky:nesting", e.target("*ua.DataValue"), codecx.Input{Unit: []byte{0x01, 0x17}, Count: 400000})
+	}
 }
 
 // hostile Variant headers: every type id x array flags x hostile lengths
@@ -416,6 +456,6 @@ func main() {
 	phase("variant-grid", e.variantGrid)
 	phase("mutations", func() { e.mutations(g) })
 	phase("random", e.random)
-	r.Notes = append(r.Notes, fmt.Sprintf("%d cases ran in a child process (address space %d MiB, max stack 16 MiB, resident set 500 MiB, timeout 5 s)", e.child, childAS>>20))
+	r.Notes = append(r.Notes, fmt.Sprintf("%d cases ran in a child process (address space %d MiB, max stack 16 MiB, resident set 200 MiB, timeout 5 s)", e.child, childAS>>20))
 	r.Write(o.Out)
 }
